@@ -1,44 +1,57 @@
-"""C07  Instruction read/write annotations match machine semantics  (RISC-V: RV32IM + C).
+"""C07  Instruction read/write annotations match machine semantics  (RISC-V: RV32IM + C; ARM: A32).
 
 Same symbolic encodings as C08 (real instruction classes, symbolic register numbers / immediates / branch
 distance, real encode() and relocation).  The emitted word is executed by the manual-derived single-step
-semantics ref/rv32.step from a fully symbolic machine state (31 registers, pc, memory), twice:
-  frame             every x-register that the step changes is in the instruction's real
+semantics ref/rv32.step (RISC-V) resp. ref/arm32.step (ARM) from a fully symbolic machine state, twice:
+  frame             every general register that the step changes is in the instruction's real
                     defined_registers (+ clobbers);
   non-interference  a second state that agrees with the first on the real used_registers (and on pc, sp,
-                    memory) and is arbitrary (inputs z1..z31) on every other register yields the same next
-                    pc, the same memory and the same values in the defined registers.
+                    memory; ARM: the NZCV flags) and is arbitrary (inputs z..) on every other register yields the
+                    same next pc, the same memory and the same values in the defined registers (ARM: and the same
+                    new flags).
+ARM flags: ppci has no flag register; the CPSR flags are treated as fixed implicit state like pc and sp (both
+states agree on them, flag changes are outside the frame claim), but the new flag values of an instruction must
+depend on declared reads only (otherwise a wrong annotation of cmp would be invisible).
 """
 import os
 import z3
 from symx.harness import Harness
 from symx import core
-from ref import rv32
-from props import _rv
+from ref import rv32, arm32
+from props import _rv, _arm
 
 PROPERTY = "C07"
 LEVEL = "model_checking"
 BOUNDS = {
-    "quick": {"registers": "every register number 0..31 for every register operand, all symbolic at once",
+    "quick": {"registers": "riscv: every register number 0..31; arm: every register number 0..15; for every register operand, all symbolic at once",
               "immediates": "[-2**33, 2**33] (whatever encode() accepts is executed)",
-              "branch/jump distance": "twice the documented reach, every even instruction address below 2**32",
-              "machine state": "x1..x31 and pc: every 32-bit value; memory: every content of the bytes an instruction can touch "
-                               "(8 symbolic bytes, address mod 8), compared at a symbolic probe address",
-              "instruction classes": "every non-system class of ppci.arch.riscv.instructions / rvc_instructions with syntax + tokens",
+              "branch/jump distance": "twice the documented reach, every even (arm: word-aligned) instruction address below 2**32",
+              "machine state": "riscv: x1..x31 and pc; arm: r0..r14, pc (word aligned), N Z C V: every value; memory: every content of the bytes an "
+                               "instruction can touch (8 symbolic bytes, address mod 8; arm push/pop: 64 bytes, address mod 64), compared at a symbolic probe address",
+              "instruction classes": "every non-system class of ppci.arch.riscv.instructions / rvc_instructions / ppci.arch.arm.arm_instructions with syntax + tokens",
               "pseudo-instructions": "li rd, imm: rd 0..31, imm -2**31 .. 2**32-1 (signed and unsigned spellings); the whole "
-                                     "rendered sequence (real render() + encode()) is executed"},
+                                     "rendered sequence (real render() + encode()) is executed",
+              "arm shift suffix": "NoShift / lsl / lsr / asr, amount [-64, 64] (whatever encode() accepts is executed)",
+              "arm register lists (push/pop)": "every list of at most 3 registers"},
 }
 BOUNDS["thorough"] = dict(BOUNDS["quick"])
 BOUNDS["thorough"]["immediates"] = BOUNDS["quick"]["immediates"].replace("2**33", "2**48")
 BOUNDS["thorough"]["branch/jump distance"] = BOUNDS["quick"]["branch/jump distance"].replace("twice", "16 times")
-OUTSIDE = ["arm, thumb, m68k, mips, x86_64 (no ISA model)", "F/D floating-point and CSR/system instructions (csr*, rdcycle*, ebreak, mret)",
-           "pseudo-instructions whose expansion needs relocations (la, lw rd,label) and the rvc selection helpers (Andv, Lwv, ...: not in the ISA object); extra_uses/extra_defs/clobbers that the code generator attaches "
+BOUNDS["thorough"]["arm register lists (push/pop)"] = "every non-empty register list and every single register"
+OUTSIDE = ["thumb, m68k, mips, x86_64 (no ISA model)", "F/D floating-point and CSR/system instructions (csr*, rdcycle*, ebreak, mret); arm coprocessor classes (mcr, mrc)",
+           "pseudo-instructions whose expansion needs relocations (la, lw rd,label; arm ldr rt,=label) and the rvc selection helpers (Andv, Lwv, ...: not in the ISA object); extra_uses/extra_defs/clobbers that the code generator attaches "
            "to individual call instructions (instances are built the way the assembler builds them)",
-           "words that are not an RV32IMC instruction (reserved encodings: decided under C08)",
-           "traps (misaligned targets, access faults): the model has none"]
+           "words that are not an RV32IMC / A32 instruction (reserved encodings: decided under C08)",
+           "arm: operand combinations and run-time cases the manual calls UNPREDICTABLE / UNKNOWN (pc as shift register, base register in a load-multiple "
+           "list with writeback, bx to an address with bits 1:0 = 10 ...): no claim",
+           "arm: changes of the CPSR flags (ppci declares no flag register: outside the frame claim)",
+           "traps (misaligned targets, access faults; arm: push/pop at an unaligned sp): the model has none"]
 ASSUMPTIONS = ["ref/rv32.py states the RISC-V Unprivileged ISA manual 20191213 correctly (see C08 self-test; integer and z3 back ends of step() cross-checked)",
-               "the stack pointer x2 and pc are fixed implicit inputs (property text): both states agree on them",
-               "memory of period 8 bytes is general for one instruction (at most 4 consecutive bytes are touched)",
+               "ref/arm32.py states the ARM ARM (DDI 0406C, ARMv7, ARM state, SCTLR.A = 0) correctly (see C08 self-test: decoder vs repo vectors / llvm-mc, 60 hand-computed "
+               "step results incl. flag setting, shifter carry-out, PC reads as address + 8, interworking PC writes; integer and z3 back ends cross-checked)",
+               "the stack pointer (x2 / r13) and pc are fixed implicit inputs (property text): both states agree on them; arm: likewise the NZCV flags",
+               "memory of period 8 bytes (arm push/pop: 64 bytes) is general for one instruction (at most 4 resp. 64 consecutive bytes are touched)",
+               "a conditional arm instruction whose condition fails leaves rd unchanged: the value of the declared output then depends on the old rd",
                "any exception out of encode()/relocation.apply() = operand combination rejected (nothing to execute)"]
 SHIMS_USED = ["isinstance", "int", "range", "bytes", "bytearray", "struct", "bool"]
 JOB_TIMEOUT = {"quick": 150, "thorough": 600}
@@ -162,6 +175,139 @@ class PseudoAnnotationHarness(_rv.PseudoHarness, AnnotationHarness):
         return self.obligations(i, seq, printed, used, defined)
 
 
+class ArmAnnotationHarness(_arm.EncodeHarness):
+    """ARM A32: the emitted word is executed by ref/arm32.step from a fully symbolic state (r0..r14, pc, NZCV,
+    memory), twice: state A = the inputs x0..x14; state B agrees with A on the real used_registers, on sp, pc,
+    the flags and memory and is arbitrary (z0..z14) elsewhere."""
+    PREFIX = "arm.usedef"
+    W = 72
+
+    def nmem(self):
+        return 64 if "L" in self.ks else 8
+
+    def inputs(self, mk):
+        d = self.operand_inputs(mk)
+        for i in range(15):
+            d[f"x{i}"] = mk.int(f"x{i}", 0, M32)
+            d[f"z{i}"] = mk.int(f"z{i}", 0, M32)
+        d["pc"] = mk.int("pc", 0, M32 - 3)
+        mk.assume(d["pc"] % 4 == 0)
+        for fl in "nzcv":
+            d["f" + fl] = mk.int("f" + fl, 0, 1)
+        for k in range(self.nmem()):
+            d[f"m{k}"] = mk.int(f"m{k}", 0, 255)
+        d["probe"] = mk.int("probe", 0, M32)
+        d["k"] = mk.int("k", 0, 14)
+        return d
+
+    def run(self, i):
+        return self.encode(i)
+
+    def post(self, i, out):
+        if not out.ok:
+            return {"harness-ran": False}
+        r = out.value
+        if r[0] == "rejected":
+            return {"rejected": True}
+        _, data, printed, used, defined = r
+        if len(data) != 4:
+            return {"instruction-length": False}
+        mem = [i[f"m{k}"] for k in range(self.nmem())]
+        xs = [i[f"x{k}"] for k in range(15)]
+        zs = [i[f"z{k}"] for k in range(15)]
+        fl = [i["f" + c] for c in "nzcv"]
+        shared = list(used) + [13]         # registers the two states agree on: declared reads + sp
+        word = _arm.le(data)
+        symbolic = any(type(v) is not int for v in xs + zs + mem + fl + shared + [word, i["pc"], i["probe"], i["k"]])
+        if symbolic:
+            bv4 = z3.BitVecSort(4)
+            X, Z = z3.Array("X", bv4, z3.BitVecSort(32)), z3.Array("Z", bv4, z3.BitVecSort(32))
+            link = [z3.Select(A, z3.BitVecVal(k, 4)) == core.to_bv(v[k], 32)
+                    for A, v in ((X, xs), (Z, zs)) for k in range(15)]
+            sh4 = [z3.simplify(core.to_bv(u, 4)) for u in shared]
+
+            def mixed(j):
+                c = z3.simplify(z3.Or(*[j == u for u in sh4]))
+                return z3.If(c, z3.Select(X, j), z3.Select(Z, j))
+            flz = [core.to_bv(f, 1) == 1 for f in fl]
+            pcz = core.to_bv(i["pc"], 32)
+            sa = arm32.make_state(arm32.Z3Regs(arr=X), pcz, flags=flz, membytes=mem)
+            sb = arm32.make_state(arm32.Z3Regs(fn=mixed), pcz, flags=flz, membytes=mem)
+        else:
+            link = []
+            ys = [xs[k] if k in shared else zs[k] for k in range(15)]
+            sa = arm32.make_state(xs, i["pc"], flags=[bool(f) for f in fl], membytes=mem)
+            sb = arm32.make_state(ys, i["pc"], flags=[bool(f) for f in fl], membytes=mem)
+        o = sa.ops
+        w = o.val(word)
+        ta, tb = arm32.step(sa, w), arm32.step(sb, w)
+
+        def member(k, nums):
+            cs = [o.eq(o.val(n), o.val(k)) for n in nums]
+            return o.or_(*cs) if cs else False
+
+        def imp(a, b):
+            return o.or_(o.not_(a), b)
+
+        k = o.val(i["k"])
+        rd = (lambda st, j: st.regs.read(j))
+        frame = o.or_(o.eq(rd(ta, k), rd(sa, k)), member(k, defined))
+        same_regs = [o.or_(o.eq(o.val(d), o.val(15)), o.eq(rd(ta, o.val(d)), rd(tb, o.val(d)))) for d in defined]
+        probe = o.val(i["probe"])
+        same_pc = o.and_(o.eq(ta.pc, tb.pc), o.eq(o.b2v(ta.t), o.b2v(tb.t)))
+        same_mem = o.eq(ta.mem.load_byte(probe), tb.mem.load_byte(probe))
+        same_flags = o.and_(*[o.eq(o.b2v(p), o.b2v(q)) for p, q in
+                              ((ta.n, tb.n), (ta.z, tb.z), (ta.c, tb.c), (ta.v, tb.v))])
+        oka = o.and_(ta.legal, o.not_(ta.system), o.not_(ta.unpred), o.not_(ta.fault), *link)
+        okab = o.and_(oka, o.not_(tb.unpred), o.not_(tb.fault))
+        docprem = self.imm_premise(i, printed)
+        if symbolic:
+            docprem = core.tobool(docprem)
+        return {"executes: bytes are an A32 instruction (C08)": _wrap(imp(o.and_(docprem, *link), ta.legal)),
+                "frame: only defined registers change": _wrap(imp(oka, frame)),
+                "non-interference: defined registers": _wrap(imp(okab, o.and_(True, *same_regs))),
+                "non-interference: next pc": _wrap(imp(okab, same_pc)),
+                "non-interference: memory": _wrap(imp(okab, same_mem)),
+                "non-interference: condition flags": _wrap(imp(okab, same_flags))}
+
+
+def mk_arm_ann(**kw):
+    return ArmAnnotationHarness(**kw)
+
+
+ARM_NLIST = {"quick": (3,), "thorough": (1, 16)}
+
+
+def arm_claimed():
+    cl, un = _arm.discover()
+    return [c for c in cl if _arm.SPEC[(c[3], c[5])]["base"] not in arm32.SYSTEM]
+
+
+def arm_jobs(tier):
+    js = [("mk_arm_selftest", {})]
+    for (idx, cls, mn, base, cond, ks) in arm_claimed():
+        for nl in (ARM_NLIST[tier] if "L" in ks else (0,)):
+            js.append(("mk_arm_ann", dict(idx=idx, cls=cls, mn=mn, base=base, cond=cond, ks=ks,
+                                          wide=int(tier == "thorough"), nlist=nl)))
+    return js
+
+
+def mk_arm_selftest():
+    import time
+    t0 = time.time()
+    res = dict(harness="arm32.selftest", violations=[], known_hits=[], inconclusive=[], errors=[], funcs=[],
+               samples=[], stats=dict(paths=1, decisions=0, feas_queries=0, cut_paths=0, solver_s=0.0),
+               obligations=1, discharged=0, validated=0, reached=1, twin_violated=1, exhaustive=True, nontrivial=1)
+    try:
+        st = arm32.selftest()
+        res["discharged"] = 1
+        res["samples"] = [dict(harness="arm32.selftest", selftest=st, claimed_classes=len(arm_claimed()))]
+    except AssertionError as e:
+        res["errors"].append(dict(kind="reference-selftest-failed", harness="arm32.selftest", error=repr(e)[:500]))
+    res["wall_s"] = time.time() - t0
+    return res
+
+
 def mk_pseudo(**kw):
     return PseudoAnnotationHarness(**kw)
 
@@ -203,6 +349,7 @@ def jobs(tier, seed):
         js.append(("mk_ann", dict(arch=arch, idx=idx, cls=cls, mn=mn, ks=ks, wide=int(tier == "thorough"))))
     for (arch, idx, cls, mn, ks) in _rv.discover(True):
         js.append(("mk_pseudo", dict(arch=arch, idx=idx, cls=cls, mn=mn, ks=ks, wide=int(tier == "thorough"))))
+    js += arm_jobs(tier)
     only = os.environ.get("VERIF_ONLY")
     if only:
         js = [j for j in js if only in repr(j)]
